@@ -30,7 +30,7 @@ ASSUMPTIONS = ["conditioning guard R<=8", "bound 200*epsrel*scale"]
 
 def required_cells(tier):
     return {"variant:differential": 6, "variant:linear": 4,
-            "variant:nofield": 3, "nsys:1": 3, "nsys:2": 3, "nsys:3": 1,
+            "variant:nofield": 3, "variant:frozen": 3, "nsys:1": 3, "nsys:2": 3, "nsys:3": 1,
             "start!=0": 4, "record_all:False": 2, "heun_steps_checked": 50,
             "td": 4}
 
@@ -116,25 +116,30 @@ def run_case(case):
     rng = gen.rng_for(case["seed"], "c09", i)
     quick = case["tier"] == "quick"
     variant = ["differential", "linear", "differential", "nofield",
-               "differential"][i % 5]
-    nsys = [1, 2, 1, 2, 3, 1][i % 6]
+               "differential", "frozen"][i % 6]
+    j = (i // 6 + i) % 6        # decorrelated from the variant cycle
+    nsys = [1, 2, 1, 2, 3, 1][j]
     if quick and nsys == 3:
         dims = [2, 2, 2]
     else:
-        dims = [[2], [2, 3], [3], [3, 2], [2, 2, 3], [2]][i % 6][:nsys]
-    start = [0.0, 1.0, -0.4][i % 3]
+        dims = [[2], [2, 3], [3], [3, 2], [2, 2, 3], [2]][j][:nsys]
+    start = [0.0, 1.0, -0.4][(i // 2) % 3]
     dt = float(rng.choice([0.05, 0.1, 0.2]))
     nsteps = int(rng.integers(3, 7))
     epsrel = float(rng.choice([1e-7, 1e-8, 1e-9]))
     kmax = [None, 3, None][i % 3]
     tau = None
     record_all = not (i % 4 == 3)
-    td = bool(i % 2 == 0) or variant == "linear"
-    sd = variant != "linear"
+    td = bool(i % 2 == 0) or variant in ("linear", "frozen")
+    sd = variant not in ("linear", "frozen")
     mf = lib.MeanFieldModel(rng, dims, time_dependent=td, state_dependent=sd,
                             field_coupled=(variant != "nofield"))
     if variant == "linear":
         mf.kappa, mf.om = 0.0, 0.0
+    if variant == "frozen":
+        # the field sits bit-for-bit at a fixed point (da/dt = 0) while the
+        # systems are explicitly time dependent and depend on the field
+        mf.kappa, mf.om, mf.c0, mf.c1 = 0.0, 0.0, 0.0, 0.0
     a0 = complex(rng.normal(), rng.normal()) * 0.5
     ps, opers, scales, corrs = [], [], [], []
     for d in dims:
@@ -192,7 +197,38 @@ def run_case(case):
                         f"the exact quadratic by {err:.3e} (step {k})",
                 "mechanism": "linear-field", "detail": {"start": start}})
 
-    if variant in ("differential", "linear"):
+    if variant == "frozen":
+        if np.abs(fa - a0).max() != 0.0:
+            violations.append({"what": "field with da/dt=0 moved",
+                               "mechanism": "frozen-field", "detail": {}})
+        worstf = 0.0
+        for k, d in enumerate(dims):
+            def hk(t, k=k):
+                return mf.h0[k] + np.real(a0) * mf.x[k] \
+                    + np.cos(mf.w * t) * mf.y[k]
+            lk, gk = mf.lop[k], mf.gamma[k]
+            tds = oqupy.TimeDependentSystem(
+                hk, gammas=[lambda t, gk=gk: gk],
+                lindblad_operators=[lambda t, lk=lk: lk])
+            plain = oqupy.Tempo(tds, oqupy.Bath(opers[k], corrs[k]), params,
+                                rhos[k], start).compute(
+                                    end, progress_type="silent")
+            sa = np.array(dyn_a.system_dynamics[k].states)
+            sp = np.array(plain.states)
+            e = float(np.abs(sa - sp).max()) if sa.shape == sp.shape \
+                else float("inf")
+            worstf = max(worstf, e)
+            if not e <= bound:
+                violations.append({
+                    "what": f"system {k} with a stationary field differs "
+                            f"from plain Tempo of H(t, a0) by {e:.3e} > "
+                            f"{bound:.2e} (explicit time dependence lost?)",
+                    "mechanism": "frozen-field-vs-tempo", "detail": {}})
+        obs["frozen_diff"] = worstf
+        obs["ratio"] = worstf / bound
+        field_change = 1.0      # non-trivial through the time dependence
+
+    if variant in ("differential", "linear", "frozen"):
         # --- compute_dynamics_with_field on PT-TEMPO process tensors
         pts = [oqupy.pt_tempo_compute(b, start, end, params,
                                       progress_type="silent") for b in baths]
